@@ -11,6 +11,7 @@ monitors on the probe.
 import itertools, json, os, random, time
 from vlib import *
 from macro_scripts import load_fixtures
+import replay as _rp
 
 SYNC_FIX = ["s_lru2", "s_fifo3_ttl2", "s_lfu2", "s_arc2", "s_mem_lru", "g_a", "s_plain", "s_inv_lru2", "s_res_lru2",
             "s_random2", "s_tlru2_ttl3_w03", "g_ab", "s_res_ttl2", "s_cif_ttl2"]
@@ -159,6 +160,7 @@ def run_conc_check(pid, tier, seed, wd):
 
     def run_job(ij):
         i, job = ij
+        job["tag"] = "job%d" % i
         jp = os.path.join(wd, "conc_job_%d.json" % i)
         json.dump(job, open(jp, "w"))
         tp = os.path.join(wd, "conc_%d.ndjson" % i)
@@ -169,13 +171,16 @@ def run_conc_check(pid, tier, seed, wd):
     with concurrent.futures.ThreadPoolExecutor(max_workers=12) as ex:
         results = list(ex.map(run_job, enumerate(jobs)))
     deadlock_jobs = []
+    jobs_by_fixture = {}
     with open(all_tr, "a") as allf:
         for i, job, jp, tp, r in results:
             for k in ("schedules", "finished", "logged", "programs"):
                 tot[k] += r.get(k, 0)
             if r["verdict"] != "ok":
                 deadlock_jobs.append((i, jp, tp, r["verdict"]))
-            allf.write(open(tp).read())
+            txt = open(tp).read()
+            allf.write(txt)
+            jobs_by_fixture[job["tag"]] = job
             if sample_job is None:
                 sample_job = {"fixtures": job["fixtures"], "prefix": job["prefix"], "program": job["programs"][0],
                               "strategy": job["strategy"]}
@@ -204,6 +209,11 @@ def run_conc_check(pid, tier, seed, wd):
         with open(tp, "w") as f:
             f.writelines(lines[s:e])
         head = json.loads(lines[s])
+        job = jobs_by_fixture.get(head.get("job"))
+        if job is not None:
+            j2 = dict(job, programs=[pp for pp in job["programs"] if pp["id"] == head.get("prog")],
+                      strategy={"kind": "replay", "choices": head.get("choices", [])})
+            _rp.sidecar(tp, "conc", {"job": j2})
         what = ("real deadlock: " + json.dumps(head.get("blocked"))) if head["ev"] in ("deadlock", "hang") else \
                ("monitor of %s false at record %d of the section (fixtures %s)" % (pid, ln - s, list(head.get("cfgs", {}).keys())))
         violations.append((what + "; schedule choices " + json.dumps(head.get("choices"))[:200], tp))
